@@ -37,7 +37,7 @@ ASSUMPTIONS = [
     "printer lib_comp.print_decls is the trusted inverse of the MAL denotation (written from mal.g4, not from the visitor)",
     "well-formed = derivable from mal.g4 with names that the lexer delivers as ID (no keyword, none of the single "
     "letters E C I A, no leading digit); the compiler performs no semantic checks, so fields/steps need not resolve "
-    "(coreLang and the two-type mini language, which do resolve, also go through LanguageGraph.from_mal_spec)",
+    "(coreLang and the small resolvable language lib_comp.valid_mini, which do resolve, also go through LanguageGraph.from_mal_spec)",
     "generated ANTLR lexer/parser trusted",
     "where 'include \"c.mal\"' inside sub/b.mal points to (next to b.mal or next to the root) is not fixed by the "
     "property: layouts of that kind provide the same file at both places",
